@@ -107,6 +107,8 @@ def generate(seed, tier):
     dirmode = rng.random() < 0.2
     nfiles = rng.choice([1, 2, 3, 4]) if dirmode else 1
     tbs = [model.gen_treebank(rng, k) for _ in range(nfiles)]
+    if rng.random() < 0.02:
+        tbs[rng.randrange(len(tbs))] = []         # an empty treebank converts to an empty one
     if rng.random() < 0.03 and nsteps == 1:
         k["n_max"] = max(k["n_max"], 5)      # a long file: crosses buffer boundaries
         tbs[0] = model.gen_treebank(rng, k, nsent=rng.randint(120, 300),
